@@ -12,7 +12,7 @@ func init() {
 	register(&propCheck{
 		ID:    "C01",
 		Run:   runC01,
-		Level: "Static analysis (abstract interpretation of constructors, size functions and encoders; symbolic size terms; specification code table). Decides for the controller-originated top-level kinds: stamp/<kind> — the header is encoded after Header.Length was assigned the size function's result on every path; size/<kind> — bytes produced ≡ size function (all command variants and child counts at once; transitively for every kind that can be nested inside); type/<ctor>, version/<ctor> — every path of each constructor leaves the ofp_type of the kind (spec/codes.json) and version 4 from the header generator, whose id comes from the atomic add; nilfield/<kind> — interface-typed parts dereferenced unconditionally by Len/MarshalBinary are non-nil after the constructor. Not decided: values of body fields (C03); totals above 65535 bytes.",
+		Level: "Static analysis (abstract interpretation of constructors, size functions and encoders; symbolic size terms; specification code table). Decides for the controller-originated top-level kinds: stamp/<kind> — the header is encoded after Header.Length was assigned the size function's result on every path; size/<kind> — bytes produced ≡ size function (all command variants and child counts at once; transitively for every kind that can be nested inside); type/<ctor>, version/<ctor> — every path of each constructor leaves the ofp_type of the kind (spec/codes.json) and version 4 from the header generator, whose id comes from the atomic add; nilfield/<kind> — interface-typed parts dereferenced unconditionally by Len/MarshalBinary are non-nil after the constructor. Not decided: values of body fields (C03); totals above 65535 bytes. Also decided: encreject/<kind> — no encoder of an OpenFlow kind constructs an error of its own (outside a branch taken for a failed child): every message the constructors and builders can build is encoded, also at the limits.",
 		Assumptions: []string{
 			"messages are built through the library's constructors and adder methods (the statement's domain)",
 			"induction over kinds for nested sizes (see C06)",
